@@ -364,6 +364,10 @@ func (x *Exec) sliceInv(s *State, ls []leaf, ts []*smt.Term) {
 	for i, l := range ls {
 		if strings.HasSuffix(l.Suffix, "#len") && i+1 < len(ls) && strings.HasSuffix(ls[i+1].Suffix, "#cap") {
 			x.assumeSliceWF(ts[i-1], ts[i], ts[i+1])
+			if i >= 2 && ts[i-2].S == RefS && !ts[i-2].HasBound {
+				// the backing array of a slice read from memory is nil or allocated
+				x.assumeLive(s, ts[i-2])
+			}
 		}
 	}
 }
